@@ -239,6 +239,7 @@ def run(seed=0, rounds=3):
         structural("repeat", lambda I, a: M["repeat"](I, a, z3.IntVal(A)), lambda a: a.repeat(A), [(v1, "float")])
         structural("repeat_interleave", lambda I, a: M["repeat_interleave"](I, a, z3.IntVal(C)), lambda a: a.repeat_interleave(C), [(vi, "long")])
         structural("view split", lambda I, a: M["view"](I, M["flatten"](I, a), z3.IntVal(A), z3.IntVal(Bd)), lambda a: a.flatten().view(A, Bd), F_)
+        structural("view split of a leading dimension", lambda I, a: M["view"](I, M["flatten"](I, a, 0, 1), z3.IntVal(A), z3.IntVal(Bd), z3.IntVal(C)), lambda a: a.flatten(0, 1).view(A, Bd, C), [(x3, "float")])
         kneg = z3.Int("k_neg!%d" % rnd)
         for kk in range(1, A + 1):
             n[0] += 1
